@@ -1,8 +1,5 @@
 #!/bin/bash
-# run all 20 quick checks in parallel on /repo's working tree; print one line each
+# dev/all.sh : all twenty quick checks on /repo as it is, in parallel; prints one line per check
 cd /verif
-./check C01 >/dev/null 2>&1   # extract once
-for i in $(seq -w 1 20); do ( ./check C$i > /tmp/all_C$i.log 2>&1; echo "C$i exit=$? $(tail -1 /tmp/all_C$i.log)" ) & 
-  if (( 10#$i % 7 == 0 )); then wait; fi
-done; wait
-grep -l "^VIOLATION" /tmp/all_C*.log
+./check C01 > /tmp/all_C01.log 2>&1; echo "C01 exit=$? $(tail -1 /tmp/all_C01.log)"
+for i in 02 03 04 05 06 07 08 09 10 11 12 13 14 15 16 17 18 19 20; do ( ./check C$i > /tmp/all_C$i.log 2>&1; echo "C$i exit=$? $(tail -1 /tmp/all_C$i.log)" ) & done; wait
